@@ -48,7 +48,7 @@ TECHNIQUE = ('path enumeration with copy propagation (canonical, reaching-defini
 
 
 def A(text: str) -> Atom:
-    a, v = canon(ast.parse(text, mode='eval').body, True)
+    a, v = canon(S.sub({}, ast.parse(text, mode='eval').body), True)
     if not v:
         raise ValueError(f'give the positive form of {text}')
     return a
@@ -56,7 +56,11 @@ def A(text: str) -> Atom:
 
 def P(text: str) -> str:
     """canonical text of an expression"""
-    return norm(ast.parse(text, mode='eval').body)
+    return norm(S.sub({}, ast.parse(text, mode='eval').body))
+
+
+def _signatures(ctx: RuleCtx) -> None:
+    S.set_signatures(ctx.repo.module(OPT), ctx.repo.module(CMDLINE))
 
 
 def arg_names(e: ast.AST) -> T.Set[str]:
@@ -98,6 +102,20 @@ def is_logging(f: S.Fx) -> bool:
 def visible(row: S.SRow) -> T.List[S.Fx]:
     """effects that change state or call something (name bindings are already substituted; logging is no effect)"""
     return [f for f in row.fx if f.kind in ('call', 'store', 'augstore', 'del', 'opaque', 'expr', 'new') and not is_logging(f)]
+
+
+def foreign_calls(fxs: T.Iterable[S.Fx], known: T.Iterable[str]) -> T.List[S.Fx]:
+    """call effects whose callee this rule does not know: what they do is not visible here, so an obligation that is
+    not found next to them is *undecided*, not violated"""
+    kn = set(known)
+    out = []
+    for f in fxs:
+        if f.kind == 'call' and not is_logging(f):
+            c = f.node.func
+            name = c.attr if isinstance(c, ast.Attribute) else (c.id if isinstance(c, ast.Name) else '?')
+            if name not in kn:
+                out.append(f)
+    return out
 
 
 def tokens(qn: str, row: tables.Row, classify: T.Callable[[S.Fx], T.Optional[str]]) -> T.Any:
@@ -171,10 +189,13 @@ def _prefix_split_summary(ctx: RuleCtx, mod: T.Any) -> None:
     S.compare(ctx, mod, qn, fn, tab, {isp: 'prefix'}, lambda w: {'prefix': w[isp], 'str': w.get(isstr, True)}, ref, got, [isp, isstr],
               what='reference (prefix entry split off, wrong type rejected, everything else kept)')
     ret = rets[0]
-    ok = isinstance(ret, ast.Tuple) and len(ret.elts) == 2 and isinstance(ret.elts[0], ast.Name) and len(pvar) == 1 \
-        and ret.elts[0].id.split('@')[0] in pvar and norm(ret.elts[1]) == rest
-    ctx.require(ok, f'{qn}: returns (prefix value, remaining entries)', mod, qn, ret if ret is not None else fn,
-                f'returns {short(ret)}; expected (the name bound to the prefix entry, the accumulator {rest})', fn)
+    if not (isinstance(ret, ast.Tuple) and len(ret.elts) == 2 and all(isinstance(x, ast.Name) for x in ret.elts) and len(pvar) == 1):
+        raise Undecided(f'{qn}: result of unknown form: {short(ret)}')
+    first, second = ret.elts[0].id.split('@')[0], ret.elts[1].id.split('@')[0]  # type: ignore[attr-defined]
+    if {first, second} != pvar | {rest}:
+        raise Undecided(f'{qn}: result of unknown form: {short(ret)}')
+    ctx.require(first in pvar and second == rest, f'{qn}: returns (prefix value, remaining entries)', mod, qn, ret,
+                f'returns ({first}, {second}): the remaining entries come first and the prefix value second; callers unpack (prefix, rest)', fn)
 
 
 def _prefix_candidate(e: ast.AST) -> T.Optional[int]:
@@ -291,6 +312,7 @@ def _apply_kind(f: S.Fx) -> T.Optional[str]:
 
 
 def r1(ctx: RuleCtx) -> None:
+    _signatures(ctx)
     mod = ctx.repo.module(OPT)
     _prefix_split_summary(ctx, mod)
     summ = _first_handle_prefix(ctx, mod)
@@ -332,7 +354,7 @@ def r1(ctx: RuleCtx) -> None:
                 'order of the apply loops by origin of the iterated mapping',
                 f'sources are applied in the order {[TOP_SRC.get(s, s) for s in seq]}; documented precedence (later overrides earlier) is {[TOP_SRC[s] for s in TOP_ORDER]}', fn)
     # call sites: the sources are passed in the positions the callee expects
-    _call_sites(ctx, 'initialize_from_top_level_project_call', ['project', 'cmdline', 'machine'], 2)
+    _call_sites(ctx, 'initialize_from_top_level_project_call', ['project', 'cmdline', 'machine'], 1)
 
 
 ARG_KIND = [('invoker_method_default_options', 'spcall'), ('project_default_options', 'project'), ('cmd_line_options', 'cmdline'),
@@ -452,6 +474,7 @@ def _norm_events(ev: T.List[T.Tuple[str, str]]) -> T.List[T.Any]:
 
 
 def r2(ctx: RuleCtx) -> None:
+    _signatures(ctx)
     mod = ctx.repo.module(OPT)
     steps = _doc_steps(ctx)
     ctx.require(steps == DOC_STEPS, f'{DOC}: the documented override order has the 8 known steps', DOC, '<document>', 'The value is overridden in this order',
@@ -535,14 +558,21 @@ def r2(ctx: RuleCtx) -> None:
         S.compare(ctx, mod, lq, fn, tab, sem, lambda w, sem=sem: {k: w[a] for a, k in sem.items()}, ref, got, list(sem), what=desc)
         events.extend((SUB_SRC[s], mode) for s in srcs)
     ctx.floor('merge loops of the subproject initialiser', len(loops), 3)
-    ctx.require(merged, f'{qn}: the merged mapping is applied by a final loop', mod, qn, 'final merge loop', 'no loop iterates over the merged mapping', fn)
+    if not merged:
+        raise Undecided(f'{qn}: no loop over the merged mapping {opts} was found at the top level (moved into a helper or comprehension?)')
+    ctx.ok(f'{qn}: the merged mapping is applied by a final loop')
     g, w = _norm_events(events), _norm_events(want)
     ctx.require(g == w, f'{qn}: {len(events)} write/remove events in the documented order', mod, qn, 'order of the write events into the merged mapping',
                 f'events on the merged mapping are {events}; the order documented in Builtin-options.md (later overrides earlier) gives {want}', fn)
     tail = [x for k, x in items if k == 'fx' and x.kind == 'call']
-    ctx.require(any(f.text == 'self.subprojects.add(ARG1)' for f in tail), f'{qn}: the subproject is recorded as processed', mod, qn,
-                'self.subprojects.add(subproject)', 'the subproject is not added to self.subprojects after the merge', fn)
-    _call_sites(ctx, 'initialize_from_subproject_call', ['subproject', 'spcall', 'project', 'cmdline', 'machine'], 2)
+    if any(f.text == 'self.subprojects.add(ARG1)' for f in tail):
+        ctx.ok(f'{qn}: the subproject is recorded as processed')
+    else:
+        other = [x for k, x in items if k == 'fx' and x.kind != 'let' and 'subprojects' in x.text] + foreign_calls([x for k, x in items if k == 'fx'], ())
+        if other:
+            raise Undecided(f'{qn}: cannot tell whether the subproject is recorded as processed ({other[0].text})')
+        ctx.violation(mod, qn, 'self.subprojects.add(subproject)', 'the function has no effect besides its loops: the subproject is never added to self.subprojects', fn)
+    _call_sites(ctx, 'initialize_from_subproject_call', ['subproject', 'spcall', 'project', 'cmdline', 'machine'], 1)
 
 
 def _merge_loop(ctx: RuleCtx, mod: T.Any, lq: str, fn: ast.AST, tab: tables.Table, opts: str) -> None:
@@ -589,6 +619,7 @@ def _merge_loop(ctx: RuleCtx, mod: T.Any, lq: str, fn: ast.AST, tab: tables.Tabl
 # ---------------------------------------------------------------------------
 # R3  lookup order
 def r3(ctx: RuleCtx) -> None:
+    _signatures(ctx)
     mod = ctx.repo.module(OPT)
     qn = 'OptionStore.get_option_and_value_for'
     fn = mod.func(qn)
@@ -612,11 +643,17 @@ def r3(ctx: RuleCtx) -> None:
     qn2 = 'OptionStore.get_value_for'
     fn2 = mod.func(qn2)
     rows2 = S.Sym(fn2).rows()
-    bad = [r for r in rows2 if r.outcome[0] != 'return' or not (isinstance(r.value, ast.Subscript) and is_call(r.value.value, 'get_option_and_value_for')
-                                                                 and isinstance(r.value.slice, ast.Constant) and r.value.slice.value == 1)]
-    ctx.require(not bad, f'{qn2}: returns the value computed by get_option_and_value_for on {len(rows2)} paths', mod, qn2,
-                bad[0].value if bad and bad[0].value is not None else fn2,
-                f'get_value_for returns {bad[0].outcome if bad else ""} instead of the second result of get_option_and_value_for', fn2)
+    for r in rows2:
+        if r.outcome[0] == 'raise':
+            continue
+        v = r.value
+        if not (r.outcome[0] == 'return' and isinstance(v, ast.Subscript) and is_call(v.value, 'get_option_and_value_for') and isinstance(v.slice, ast.Constant)):
+            raise Undecided(f'{qn2}: result of unknown form: {r.outcome}')
+        if v.slice.value not in (1, -1):
+            ctx.violation(mod, qn2, v, f'get_value_for returns element {v.slice.value} of get_option_and_value_for(...): the option object, not the computed value', fn2)
+            break
+    else:
+        ctx.ok(f'{qn2}: returns the value computed by get_option_and_value_for on {len(rows2)} paths')
 
 
 # ---------------------------------------------------------------------------
@@ -684,6 +721,7 @@ def _is_validated(value: ast.AST, recv_text: str) -> bool:
 
 
 def r4(ctx: RuleCtx) -> None:
+    _signatures(ctx)
     mod = ctx.repo.module(OPT)
     sites = c07_scan._sites(mod.tree)
     # (a) .value of an option is only ever assigned the result of its own validate_value
@@ -718,9 +756,12 @@ def r4(ctx: RuleCtx) -> None:
             if fx.kind in ('store', 'augstore') or (fx.kind == 'call' and is_call(fx.node, 'set_value')):
                 ctx.violation(mod, so.qn, fx.src, f'{fx.text}: option state is written before the value has been validated', fx.src)
     m = re.fullmatch(r'self\.resolve_option\((.*)\)', so.obj)
-    if not ctx.require(bool(m) and m.group(1) == 'ARG1', f'{so.qn}: the value is validated by the option resolved for the key being set', mod, so.qn, 'receiver of validate_value',
-                       f'the value is validated by {so.obj}; reference: self.resolve_option(key), the option the value is then stored for', so.fn):
+    if not (m and m.group(1) == 'ARG1'):
+        if not (m or re.fullmatch(r'self\.options\[.*\]', so.obj)):
+            raise Undecided(f'{so.qn}: the value is validated by {so.obj}: cannot tell which option that is')
+        ctx.violation(mod, so.qn, 'receiver of validate_value', f'the value is validated by {so.obj}; reference: self.resolve_option(key), the option the value is then stored for', so.fn)
         return
+    ctx.ok(f'{so.qn}: the value is validated by the option resolved for the key being set')
     assert m is not None
     keytxt = m.group(1)
     naug = nset = 0
@@ -762,6 +803,7 @@ def r4(ctx: RuleCtx) -> None:
 
 # ---------------------------------------------------------------------------
 def r5(ctx: RuleCtx) -> None:
+    _signatures(ctx)
     c07_val.run(ctx)
 
 
@@ -806,6 +848,9 @@ def _guard_rows(ctx: RuleCtx, mod: T.Any, qn: str, rows: T.List[S.SRow], fired: 
         elif r.outcome[0] != 'raise':
             off += 1
             if not wrong:
+                hidden = foreign_calls(r.fx, ('set_value', 'set_option', 'reset_prefixed_options', 'validate_value'))
+                if hidden:
+                    raise Undecided(f'{qn}: {what} not found on a path that calls {hidden[0].text}, which this rule cannot see into')
                 have = [names[a] for a in guard if a in r.conds]
                 ctx.violation(mod, qn, f'{what}: missing', f'{what} does not happen on a path where {", ".join(have) or "no guard was tested"} held and no guard failed: '
                               f'an additional condition suppresses it, or it was removed', mod.func(qn), path=repr(r))
@@ -813,23 +858,11 @@ def _guard_rows(ctx: RuleCtx, mod: T.Any, qn: str, rows: T.List[S.SRow], fired: 
 
 
 def r6(ctx: RuleCtx) -> None:
+    _signatures(ctx)
     mod = ctx.repo.module(OPT)
-    table = fold_const(ctx.repo, mod, 'DEFAULT_DEPENDENTS', cls='OptionStore')
     doc = _doc_buildtype_table(ctx)
     ctx.require(doc == REF_BUILDTYPES, f'{DOC}: buildtype table has the 5 known rows', DOC, '<document>', 'buildtype | debug | optimization',
                 f'the documented table is now {doc}; the checker was written against {REF_BUILDTYPES}')
-    ok = isinstance(table, dict) and {k: tuple(v) if isinstance(v, (tuple, list)) else v for k, v in table.items()} == doc
-    ctx.require(ok, f'OptionStore.DEFAULT_DEPENDENTS equals the documented table ({len(doc)} build types, (optimization, debug))', mod, 'OptionStore', 'DEFAULT_DEPENDENTS',
-                f'DEFAULT_DEPENDENTS is {table}; Builtin-options.md documents buildtype -> (optimization, debug) = {doc}', mod.assign_value('DEFAULT_DEPENDENTS', mod.cls('OptionStore')))
-    types = fold_const(ctx.repo, mod, 'buildtypelist')
-    ctx.require(isinstance(table, dict) and set(table) == set(types) - {'custom'}, 'every build type except custom has an expansion', mod, 'OptionStore', 'DEFAULT_DEPENDENTS keys',
-                f'expansions exist for {sorted(table) if isinstance(table, dict) else table}; build types are {types}')
-    if not isinstance(table, dict) or not all(isinstance(v, tuple) and len(v) == 2 for v in table.values()):
-        raise Undecided('DEFAULT_DEPENDENTS is not a mapping to pairs')
-    bool_col = [i for i in (0, 1) if all(isinstance(v[i], bool) for v in table.values())]
-    str_col = [i for i in (0, 1) if all(isinstance(v[i], str) for v in table.values())]
-    if len(bool_col) != 1 or len(str_col) != 1:
-        raise Undecided('DEFAULT_DEPENDENTS columns are not (str, bool)')
     so = _set_option(ctx)
     NV = so.NV
     changed = A(so.changed)
@@ -843,11 +876,12 @@ def r6(ctx: RuleCtx) -> None:
     ctx.floor('paths with the buildtype expansion', on, 1)
     ctx.floor('paths without it', off, 2)
     ctx.ok(f'{so.qn}: debug/optimization are derived exactly when the value changed to a non-custom buildtype ({on} paths with, {off} without)')
-    dep = f'self.DEFAULT_DEPENDENTS[{NV}]'
-    col = {'debug': bool_col[0], 'optimization': str_col[0]}
-    keyform = {P(f"ARG1.evolve(name='{k}')"): k for k in col}
+    # the table(s) are found by role: whatever the expansion reads, indexed by the validated buildtype
+    keyform = {P(f"ARG1.evolve(name='{k}')"): k for k in ('debug', 'optimization')}
     problem = None
     npaths = 0
+    shapes: T.Dict[str, T.Set[T.Tuple[str, T.Any]]] = {'debug': set(), 'optimization': set()}
+    site: T.Dict[str, S.Fx] = {}
     for r in so.tail:
         ex = expansions(r)
         if not ex:
@@ -866,22 +900,55 @@ def r6(ctx: RuleCtx) -> None:
                 raise Undecided(f'{so.qn}: dependant key of unknown form: {norm(k)}')
             which = keyform[norm(k)]
             seen.add(which)
-            if not (isinstance(v, ast.Subscript) and norm(v.value) == dep and isinstance(v.slice, ast.Constant) and v.slice.value in (0, 1)):
+            col = None
+            t = v
+            if isinstance(t, ast.Subscript) and isinstance(t.slice, ast.Constant) and isinstance(t.slice.value, int) and isinstance(t.value, ast.Subscript):
+                col, t = t.slice.value, t.value
+            if not (isinstance(t, ast.Subscript) and norm(t.slice) == NV and attr_chain(t.value)):
                 raise Undecided(f'{so.qn}: dependant value of unknown form: {norm(v)}')
-            if v.slice.value != col[which]:
-                problem = (f, f'{f.text}: {which} receives column {v.slice.value} of DEFAULT_DEPENDENTS; column {col[which]} holds the {which} values')
-                break
+            shapes[which].add((attr_chain(t.value) or '', col))
+            site[which] = f
             if norm(a['first_invocation']) != 'ARG3':
                 problem = (f, f'{f.text}: first_invocation is not passed on')
                 break
-        if problem is None and seen != set(col):
-            problem = (ex[0], f'the expansion sets only {sorted(seen)}; reference: debug and optimization')
+        if problem is None and seen != set(shapes):
+            problem = (ex[0], f'the expansion sets only {sorted(seen)} ({"; ".join(x.text for x in ex)}); reference: debug and optimization')
         if problem is not None:
             break
     if problem is not None:
         ctx.violation(mod, so.qn, problem[0].src, problem[1], problem[0].src)
     else:
-        ctx.ok(f'{so.qn}: expansion sets debug := table[{bool_col[0]}] and optimization := table[{str_col[0]}] under key.evolve(name=...), first_invocation passed on ({npaths} paths)')
+        ctx.ok(f'{so.qn}: the expansion sets debug and optimization under key.evolve(name=...) from a table indexed by the validated buildtype, first_invocation passed on ({npaths} paths)')
+        if any(len(x) != 1 for x in shapes.values()):
+            raise Undecided(f'{so.qn}: the expansion reads different tables on different paths: {shapes}')
+        composed: T.Dict[str, T.Dict[str, T.Any]] = {}
+        names = {}
+        for which, sh in shapes.items():
+            chain, col = next(iter(sh))
+            tname = chain.split('.')[-1]
+            head = chain.split('.')[:-1]
+            if head not in ([], ['self'], ['cls'], ['OptionStore']):
+                raise Undecided(f'{so.qn}: table {chain} is not a constant of OptionStore or of the module')
+            cls = 'OptionStore' if head and mod.has_assign(tname, mod.cls('OptionStore')) else None
+            if head and cls is None:
+                raise Undecided(f'{so.qn}: {chain} is not a class-level constant')
+            tab = fold_const(ctx.repo, mod, tname, cls=cls)
+            if not isinstance(tab, dict):
+                raise Undecided(f'{tname} does not fold to a mapping')
+            try:
+                composed[which] = {k: (v[col] if col is not None else v) for k, v in tab.items()}
+            except (TypeError, IndexError, KeyError):
+                raise Undecided(f'{tname}: rows are not indexable by {col}')
+            names[which] = f'{tname}' + (f'[..][{col}]' if col is not None else '[..]')
+        keys = set(composed['debug']) | set(composed['optimization'])
+        got_tab = {k: (composed['optimization'].get(k), composed['debug'].get(k)) for k in keys}
+        anchor = site['debug'].src
+        ctx.require(got_tab == doc, f'buildtype -> (optimization, debug) read by the expansion ({names["optimization"]}, {names["debug"]}) equals the documented table ({len(doc)} build types)',
+                    mod, 'OptionStore', f'{names["optimization"]} / {names["debug"]}',
+                    f'the expansion derives buildtype -> (optimization, debug) = {got_tab} from {names["optimization"]} and {names["debug"]}; Builtin-options.md documents {doc}', anchor)
+        types = fold_const(ctx.repo, mod, 'buildtypelist')
+        ctx.require(set(composed['debug']) == set(composed['optimization']) == set(types) - {'custom'}, 'every build type except custom has an expansion', mod, 'OptionStore',
+                    'keys of the buildtype tables', f'expansions exist for {sorted(keys)}; build types are {types}', anchor)
     _changed_semantics(ctx, so)
     # command line: buildtype first, so that explicit debug/optimization are applied after its expansion
     cm = ctx.repo.module(CMDLINE)
@@ -900,6 +967,10 @@ def r6(ctx: RuleCtx) -> None:
             raise Undecided(f'{qn}: a path does not test whether buildtype is on the command line: {r!r}')
         n += 1
         if r.conds[has]:
+            if not stores:
+                hidden = foreign_calls(r.fx, ('pop',))
+                if hidden:
+                    raise Undecided(f'{qn}: cmd_line_options is not rebuilt here, but {hidden[0].text} may do it')
             if len(stores) != 1 or stores[0].kind != 'store':
                 ctx.violation(cm, qn, stores[0].src if stores else 'cmd_line_options not rebuilt', f'with buildtype on the command line the mapping is rewritten {len(stores)} times '
                               f'({[f.text for f in stores]}); reference: once, as {{buildtype: popped value, **rest}} so that explicit debug/optimization are applied after the expansion', fn)
@@ -1015,7 +1086,6 @@ def _contains_call(e: ast.AST, name: str) -> bool:
 
 # ---------------------------------------------------------------------------
 # R7  prefix-dependent defaults
-TABLE = 'BUILTIN_DIR_NOPREFIX_OPTIONS'
 
 
 SET_ARGS = ('self.options[KEY].default', 'self.options[KEY].value', 'VAL[ARG1]', 'VAL[ARG2]', 'VAL[self.sanitize_prefix(ARG1)]')
@@ -1030,8 +1100,10 @@ def _set_value_calls(r: tables.Row) -> T.Any:
 
 
 def r7(ctx: RuleCtx) -> None:
+    _signatures(ctx)
     mod = ctx.repo.module(OPT)
-    nop = fold_dir_table(ctx, mod)
+    TABLE = _dir_table_name(ctx, mod)
+    nop = fold_dir_table(ctx, mod, TABLE)
     # hard_reset_from_prefix
     qn = 'OptionStore.hard_reset_from_prefix'
     fn = mod.func(qn)
@@ -1041,18 +1113,28 @@ def r7(ctx: RuleCtx) -> None:
     PFX = P('self.sanitize_prefix(ARG1)')
     O = 'self.options[KEY]'
     shape = [k for k, _ in kinds]
-    if shape != ['loop', 'fx']:
-        ctx.violation(mod, qn, 'sequence of effects', f'effects are {[x.text if k == "fx" else "loop" for k, x in kinds]}; reference: one loop over the table, then the prefix itself', fn)
+    set_prefix = P(f"self.options[OptionKey('prefix')].set_value({PFX})")
+    if shape == ['loop']:
+        # closed world: the function is one loop and nothing else, so nothing stores the prefix itself
+        ctx.violation(mod, qn, 'self.options[OptionKey(\'prefix\')].set_value(prefix)', 'the function consists of the loop over the dependants only: the prefix option itself never receives the new prefix', fn)
+    elif shape != ['loop', 'fx']:
+        raise Undecided(f'{qn}: effects {[x.text if k == "fx" else k for k, x in kinds]} are not "one loop over the table, then the prefix itself"')
     else:
         loop, last = kinds[0][1], kinds[1][1]
-        ctx.require(norm(loop.iter) == f'{TABLE}.items()', f'{qn}: iterates {TABLE}.items()', mod, qn, loop.node.iter, f'the loop iterates {short(loop.iter)}', loop.node)
+        if norm(loop.iter) != f'{TABLE}.items()':
+            raise Undecided(f'{qn}: the loop iterates {short(loop.iter)}, not the table {TABLE} that prefixed_default reads')
+        ctx.ok(f'{qn}: iterates {TABLE}.items()')
         tab = S.to_table(loop_rows(sym, loop), qn + ':loop')
         mapped, rawmapped = A(f'{PFX} in VAL'), A('ARG1 in VAL')
         S.compare(ctx, mod, qn + ' loop', fn, tab, {mapped: 'sanitised prefix has a mapped value', rawmapped: 'unsanitised prefix has a mapped value'}, lambda w: w[mapped],
                   lambda hit: (P(f'{O}.set_value(VAL[{PFX}])'),) if hit else (P(f'{O}.set_value({O}.default)'),), _set_value_calls, [mapped],
                   what='reference (mapping hit for the sanitised prefix -> mapped value, else the declared default)')
-        ctx.require(last.kind == 'call' and last.text == P(f"self.options[OptionKey('prefix')].set_value({PFX})"), f'{qn}: the sanitised prefix itself is set last', mod, qn, last.src,
-                    f'after the loop: {last.text}; reference: the prefix option receives the sanitised prefix', last.src)
+        if last.kind == 'call' and last.text == set_prefix:
+            ctx.ok(f'{qn}: the sanitised prefix itself is set last')
+        elif last.kind == 'call' and last.text == P("self.options[OptionKey('prefix')].set_value(ARG1)"):
+            ctx.violation(mod, qn, last.src, f'after the loop: {last.text}: the prefix option receives the unsanitised prefix', last.src)
+        else:
+            raise Undecided(f'{qn}: effect after the loop of unknown form: {last.text}')
     # reset_prefixed_options(old, new)
     qn = 'OptionStore.reset_prefixed_options'
     fn = mod.func(qn)
@@ -1062,7 +1144,9 @@ def r7(ctx: RuleCtx) -> None:
     if [k for k, _ in kinds] != ['loop']:
         raise Undecided(f'{qn}: expected a single loop')
     loop = kinds[0][1]
-    ctx.require(norm(loop.iter) == f'{TABLE}.items()', f'{qn}: iterates {TABLE}.items()', mod, qn, loop.node.iter, f'the loop iterates {short(loop.iter)}', loop.node)
+    if norm(loop.iter) != f'{TABLE}.items()':
+        raise Undecided(f'{qn}: the loop iterates {short(loop.iter)}, not the table {TABLE} that prefixed_default reads')
+    ctx.ok(f'{qn}: iterates {TABLE}.items()')
     tab = S.to_table(loop_rows(sym, loop), qn + ':loop')
     newm, oldm, same = A('ARG2 in VAL'), A('ARG1 in VAL'), A(f'VAL[ARG1] == {O}.value')
     sem = {newm: 'new prefix mapped', oldm: 'old prefix mapped', same: 'value still the old mapped default'}
@@ -1083,9 +1167,23 @@ def r7(ctx: RuleCtx) -> None:
     rows = S.Sym(fn, handlers=True).rows()
     normal = [r for r in rows if not any(f.kind == 'except' for f in r.fx)]
     handled = [r for r in rows if any(f.kind == 'except' for f in r.fx)]
-    ok = len(normal) == 1 and normal[0].outcome == ('return', f'{TABLE}[ARG2][ARG3]') and bool(handled) and \
-        all([f.text for f in r.fx if f.kind == 'except'] == ['KeyError'] and r.outcome == ('return', 'ARG1.default') for r in handled)
-    ctx.require(ok, f'{qn}: mapped value for (option, prefix), else the declared default', mod, qn, fn, f'prefixed_default is {[repr(r) for r in rows]}', fn)
+    if len(normal) != 1 or normal[0].outcome[0] != 'return' or not handled:
+        raise Undecided(f'{qn}: not of the form try: return <table lookup> except KeyError: return <default>: {[repr(r) for r in rows]}')
+    v = normal[0].value
+    if not (isinstance(v, ast.Subscript) and isinstance(v.value, ast.Subscript) and norm(v.value.value) == TABLE):
+        raise Undecided(f'{qn}: lookup of unknown form: {short(v)}')
+    bad_lookup = (norm(v.value.slice), norm(v.slice)) != ('ARG2', 'ARG3')
+    bad_handler = None
+    for r in handled:
+        if 'KeyError' not in [x for f in r.fx if f.kind == 'except' for x in re.findall(r'\w+', f.text)]:
+            raise Undecided(f'{qn}: handler of unknown form: {r!r}')
+        hv = r.value
+        if r.outcome[0] != 'return' or not (isinstance(hv, ast.Attribute) and norm(hv.value) == 'ARG1'):
+            raise Undecided(f'{qn}: fallback of unknown form: {r.outcome}')
+        if hv.attr != 'default':
+            bad_handler = r
+    ctx.require(not bad_lookup and bad_handler is None, f'{qn}: mapped value for (option, prefix), else the declared default', mod, qn, v if bad_lookup else fn,
+                (f'the lookup is {norm(v)}: not {TABLE}[name][prefix]' if bad_lookup else f'without a mapped value it returns {bad_handler.outcome[1] if bad_handler else ""}, not the declared default'), fn)
     qn = 'OptionStore.add_builtin_option'
     fn = mod.func(qn)
     rows = S.Sym(fn).rows()
@@ -1098,6 +1196,9 @@ def r7(ctx: RuleCtx) -> None:
         if r.outcome[0] == 'raise':
             continue
         if init not in calls or not adds or calls.index(init) > adds[0] or not all(calls[i].endswith(f'ARG1, {C})') for i in adds):
+            hidden = foreign_calls(r.fx, ('set_value', 'add_module_option', 'add_system_option', 'add_system_option_internal'))
+            if hidden or not adds:
+                raise Undecided(f'{qn}: cannot follow how the builtin is initialised and registered on the path {r!r}')
             bad.append(r)
     ctx.require(not bad, f'{qn}: a private copy receives the default for the default prefix before it is registered ({len(rows)} paths)', mod, qn, fn,
                 f'on a path the registered option is not a copy initialised with prefixed_default(opt, key, default_prefix()): {bad[0]!r}' if bad else '', fn)
@@ -1153,7 +1254,17 @@ def _only_sanitised(e: ast.AST) -> bool:
     return all(_only_sanitised(c) for c in ast.iter_child_nodes(e))
 
 
-def fold_dir_table(ctx: RuleCtx, mod: T.Any) -> T.Dict[str, T.Dict[str, str]]:
+def _dir_table_name(ctx: RuleCtx, mod: T.Any) -> str:
+    """the table of prefix-dependent defaults, found by role: what prefixed_default subscripts with (option, prefix)"""
+    fn = mod.func('prefixed_default')
+    for r in S.Sym(fn).rows():
+        v = r.value
+        if r.outcome[0] == 'return' and isinstance(v, ast.Subscript) and isinstance(v.value, ast.Subscript) and isinstance(v.value.value, ast.Name):
+            return v.value.value.id
+    raise Undecided('prefixed_default: the table of prefix-dependent defaults was not recognised')
+
+
+def fold_dir_table(ctx: RuleCtx, mod: T.Any, TABLE: str) -> T.Dict[str, T.Dict[str, str]]:
     e = mod.assign_value(TABLE)
     if not isinstance(e, ast.Dict):
         raise Undecided(f'{TABLE} is not a dict display')
@@ -1262,7 +1373,7 @@ def _parent_links(ctx: RuleCtx, mod: T.Any, lattice: T.List[T.Tuple[str, str]], 
                         ctx.violation(mod, q, fx.src, f'{fx.text} is guarded by an isinstance/issubclass test only; the option classes form a lattice ({"; ".join(f"{x} < {y}" for x, y in lattice)}), '
                                       f'so e.g. a {a} is linked to a {b} parent and reports the parent value, which need not satisfy its own choices; reference: type(parent) is type(option)', fx.src, path=repr(r))
                     continue
-                if any('type(' in repr(a) or '__class__' in repr(a) or a.kind == 'isinstance' for a in r.conds):
+                if any('type(' in repr(a) or '__class__' in repr(a) or a.kind == 'isinstance' or (o in repr(a) and p in repr(a)) for a in r.conds):
                     raise Undecided(f'{q}: {fx.text}: class test of unknown form on the path {r!r}')
                 bad += 1
                 if report:
@@ -1271,6 +1382,7 @@ def _parent_links(ctx: RuleCtx, mod: T.Any, lattice: T.List[T.Tuple[str, str]], 
 
 
 def r8(ctx: RuleCtx) -> None:
+    _signatures(ctx)
     mod = ctx.repo.module(OPT)
     lattice = _option_lattice(ctx, mod)
     ctx.note(f'subclass pairs among instantiable option classes: {lattice}')
@@ -1319,6 +1431,9 @@ def r8(ctx: RuleCtx) -> None:
         nreg += 1
         norm_i = [i for i, t in enumerate(texts) if t in ('ARG2.yielding := ARG2.parent is not None', 'ARG2.yielding := bool(ARG2.parent)')]
         if not norm_i or norm_i[0] > reg[0]:
+            hidden = foreign_calls(r.fx, ('add', 'as_root', 'ensure_and_validate_key'))
+            if hidden or any('.yielding :=' in t for t in texts):
+                raise Undecided(f'{qn}: cannot follow how the yield flag is set before registration ({(hidden[0].text if hidden else "unknown form")})')
             ctx.violation(mod, qn, 'valobj.yielding = valobj.parent is not None', 'a project option is registered on a path that does not first reduce its declared yield flag to "a same-class parent is linked"', fn, path=repr(r))
             break
     else:
